@@ -747,6 +747,11 @@ class StrategyBase(Node):
                 self.bankrupt = True
                 self.flatten()
 
+        # bid/offer paid can change while value and notional value do not
+        if self._bidoffer_set:
+            self._bidoffer_paid = bidoffer_paid
+            _w(self._bidoffers_paid)[inow] = bidoffer_paid
+
         # update data if this value is different or
         # if now has changed - avoid all this if not since it
         # won't change
@@ -756,10 +761,6 @@ class StrategyBase(Node):
 
             self._notl_value = notl_val
             _w(self._notl_values)[inow] = notl_val
-
-            if self._bidoffer_set:
-                self._bidoffer_paid = bidoffer_paid
-                _w(self._bidoffers_paid)[inow] = bidoffer_paid
 
             if self.fixed_income:
                 # For notional weights, we compute additive return
